@@ -30,6 +30,7 @@ TRUSTED_BASE = [
     "the declarations the proofs assume are re-checked by `rfl` on every run (SchemaTie/Load.lean)",
 ]
 SCHEMA_TIE = ('Load',)
+SQL_TIE = ('load',)
 ASSUMPTIONS = [
     "existing local datetimes at whole seconds (non-existent local times in a skipped hour are outside the property)",
     "for a repeated hour either of the two instants rendering to the text is accepted",
